@@ -2,6 +2,7 @@ import CoxeterVerif.Lemmas.Polyhedron
 import CoxeterVerif.Lemmas.PolytriBoundary
 import CoxeterVerif.Lemmas.PolytriFan
 import CoxeterVerif.Lemmas.PolytriWinding
+import CoxeterVerif.Lemmas.PolytriCount
 import CoxeterVerif.Lemmas.PolyhedronFaces
 import CoxeterVerif.Props.C04
 /-!
@@ -719,5 +720,59 @@ theorem polytri_stuck_example : Polytri.triangulate exStuck = .error "ValueError
         (simp [sumEdges, cycleEdges_eq, exStuck, Polytri.crossPhi, V3.cross, V3.get] <;> norm_num)
     rw [hv]
     norm_num [V3.dot, Scalar.lit]
+
+/-! ### deepening round: the ear clipping's output is a partition of the face (count = winding number) -/
+
+/-- **C02 ear clipping: number of triangles containing a point = winding number of the polygon.**
+`R` is any frame for the polygon's unit normal `n` (a negative multiple of the Newell vector), `g` rotates
+into that frame and drops `z` — what `Polygon.is_inside` does. For every point `p` on none of the closed
+edges of the emitted triangles, the number of triangles strictly containing `p` equals the winding number
+`Polygon.is_inside` computes for the polygon about `p`. So for a simple polygon (winding number 1 inside, 0
+outside) exactly one triangle contains each interior point and none an exterior one: the `n − 2` triangles
+do not overlap and cover exactly the face. -/
+theorem polytri_count_eq_winding (poly : List (V3 ℝ)) (tris : List (Tri ℝ))
+    (h : Polytri.triangulate poly = .ok tris) (hcount : poly.length ≤ tris.length + 2)
+    {R : M3 ℝ} {n : V3 ℝ} {k : ℝ} (hR : Inside2D.IsFrame R n) (hk : k < 0)
+    (hn : n = V3.smul k (Polytri.newell poly)) (p : Inside2D.P2 ℝ)
+    (hoff : ∀ t ∈ tris, Spec.In2D.onBoundary
+      (Polytri.proj2 (fun v => Inside2D.proj (Inside2D.rotate R v)) t) p = false) :
+    Inside2D.Polygon.windingNumber (poly.map fun v => Inside2D.proj (Inside2D.rotate R v)) p
+      = (Spec.In2D.count (tris.map (Polytri.proj2 fun v => Inside2D.proj (Inside2D.rotate R v))) p : Int) := by
+  apply Polytri.count_eq_winding _ p poly tris (polytri_triangulates poly tris h hcount) _ hoff
+  intro t ht
+  rw [Inside2D.orient_rotate hR]
+  have := polytri_positive poly tris h hk hn t ht
+  simp only [one_mul, Spec3.triArea, Scalar.lit, Scalar.ofNat_real] at this
+  unfold Spec.In2D.orient3
+  push_cast at this
+  linarith
+
+/-- no two emitted triangles overlap where the polygon winds once -/
+theorem polytri_no_overlap (poly : List (V3 ℝ)) (tris : List (Tri ℝ))
+    (h : Polytri.triangulate poly = .ok tris) (hcount : poly.length ≤ tris.length + 2)
+    {R : M3 ℝ} {n : V3 ℝ} {k : ℝ} (hR : Inside2D.IsFrame R n) (hk : k < 0)
+    (hn : n = V3.smul k (Polytri.newell poly)) (p : Inside2D.P2 ℝ)
+    (hoff : ∀ t ∈ tris, Spec.In2D.onBoundary
+      (Polytri.proj2 (fun v => Inside2D.proj (Inside2D.rotate R v)) t) p = false)
+    (hw : Inside2D.Polygon.windingNumber (poly.map fun v => Inside2D.proj (Inside2D.rotate R v)) p ≤ 1) :
+    Spec.In2D.count (tris.map (Polytri.proj2 fun v => Inside2D.proj (Inside2D.rotate R v))) p ≤ 1 := by
+  have := polytri_count_eq_winding poly tris h hcount hR hk hn p hoff
+  omega
+
+theorem frame_id_z : Inside2D.IsFrame (⟨1, 0, 0, 0, 1, 0, 0, 0, 1⟩ : M3 ℝ) ⟨0, 0, 1⟩ := by
+  refine ⟨⟨?_, ?_, ?_, ?_, ?_, ?_⟩, ?_, ?_⟩ <;> norm_num [Inside2D.det3, Inside2D.rotate]
+
+/-- non-vacuity: the unit square, the point `(1/2, 1/3)` -/
+example : Inside2D.Polygon.windingNumber
+      (exSq.map fun v => Inside2D.proj (Inside2D.rotate (⟨1, 0, 0, 0, 1, 0, 0, 0, 1⟩ : M3 ℝ) v)) ⟨1/2, 1/3⟩
+    = (Spec.In2D.count (exSqT.map (Polytri.proj2 fun v =>
+        Inside2D.proj (Inside2D.rotate (⟨1, 0, 0, 0, 1, 0, 0, 0, 1⟩ : M3 ℝ) v))) ⟨1/2, 1/3⟩ : Int) := by
+  apply polytri_count_eq_winding exSq exSqT polytri_exSq (by simp [exSq, exSqT]) frame_id_z
+    (k := -1/2) (by norm_num) (by rw [newell_exSq]; ext <;> simp [V3.smul])
+  intro t ht
+  simp only [exSqT, List.mem_cons, List.not_mem_nil, or_false] at ht
+  rcases ht with rfl | rfl <;>
+    norm_num [Polytri.proj2, Inside2D.proj, Inside2D.rotate, Spec.In2D.onBoundary, Spec.In2D.onSegment,
+      Spec.In2D.orient, Spec.In2D.dot2, Scalar.lit, Scalar.eqb]
 
 end
